@@ -128,7 +128,7 @@ def marinate_run(ex, inp):
     fs = RecFS()
     ex.ctx.ghost["fs"] = fs
     LIBS[("sys", "argv")] = Const(["marinate", inp["inp"]])
-    LIBS[("pickle", "dump")] = lambda ex_, a, k: None
+    LIBS[("pickle", "dump")] = lambda ex_, a, k: (a[0], a[1], None)[2]        # (object, open file): opaque bytes into that file
     ex.contracts["amr_kitchen.plotfile_cooker.PlotfileCooker.__new__"] = lambda ex_, a, k: Record("amr_kitchen.plotfile_cooker.PlotfileCooker")
     ex.call_qual("amr_kitchen.marinate.main", [], {})
     return fs
